@@ -8,7 +8,7 @@ package cors
 // allocation-site events must not depend on how the scanning/parsing loops of
 // the internal packages ran; and it must stay below a small constant.
 func zzH_C18_api() {
-	s := zzDrawScenario([]int{zzFOrigin, zzFMethod, zzFHeaders, zzFPNA})
+	s := zzDrawScenario([]int{zzFOrigin, zzFMethod, zzFHeaders, zzFPNA, zzFSteps})
 	w := zzNewWriter()
 	h := s.m.Wrap(&zzHandler{})
 	zzAllocStart()
